@@ -5,7 +5,7 @@ W=${SCRATCH:-/tmp/w0}
 for p in "$@"; do
   git -C "$W" checkout -q --detach "$(git -C /repo rev-parse HEAD)" && git -C "$W" checkout -q -- . && git -C "$W" clean -qfd
   if ! git -C "$W" apply "$p" 2>/dev/null; then echo "$p: PATCH-DOES-NOT-APPLY"; continue; fi
-  out=$(/verif/bin/waspcheck -p all -repo "$W" -out /tmp/ev_neu 2>&1 | grep -E "^VIOLATION|^  rule |^  [a-z-].*: " | cut -c1-260)
+  out=$(${WASPCHECK:-/verif/bin/waspcheck} -p all -repo "$W" -out /tmp/ev_neu 2>&1 | grep -E "^VIOLATION|^  rule |^  [a-z-].*: " | cut -c1-260)
   if [ -z "$out" ]; then echo "$p: silent"; else echo "$p: ALARM"; echo "$out"; fi
 done
 git -C "$W" checkout -q -- . && git -C "$W" clean -qfd
